@@ -1,0 +1,101 @@
+//go:build verif
+
+// Contracts for the HTTP cache handler (C01, C11, C13, C15, C18), checked by /verif (govc).
+// Comment-only file.
+//
+// The handler is an entry point (noframe): what is proved are call-site obligations - what is
+// true whenever it reaches the cache - and the absence of panics for every request that
+// net/http can hand to it (non-nil request with URL and body).
+
+package server
+
+//@ iface (github.com/buchgr/bazel-remote/v2/cache/disk.Cache).GetZstd(c, ctx, hash, size, offset)
+//@   pure
+//@   ensures typederr: istype(result2, "*cache.Error") ==> as(result2, "*cache.Error") != nil
+//@ iface (github.com/buchgr/bazel-remote/v2/cache/disk.Cache).Contains(c, ctx, kind, hash, size)
+//@   pure
+//@ iface (github.com/buchgr/bazel-remote/v2/cache/disk.Cache).GetValidatedActionResult(c, ctx, hash)
+//@   pure
+//@ extern (*net/http.Request).Context(r)
+//@   pure
+//@   ensures result != nil
+//@ extern (net/http.Header).Get(h, key)
+//@   pure
+//@ extern (net/http.Header).Set(h, key, value)
+//@   pure
+//@ extern strings.Contains(s, substr)
+//@   pure
+//@ extern strconv.FormatInt(i, base)
+//@   pure
+//@ extern strconv.Atoi(s)
+//@   pure
+//@ extern html.EscapeString(s)
+//@   pure
+//@ extern google.golang.org/protobuf/encoding/protojson.Unmarshal(b, m)
+//@   modifies pointee(m)
+//@ extern google.golang.org/protobuf/encoding/protojson.Marshal(m)
+//@   pure
+//@ extern strings.TrimSuffix(s, suffix)
+//@   pure
+//@ extern (*regexp.Regexp).FindStringSubmatch(re, s)
+//@   pure
+//@ extern (*github.com/buchgr/bazel-remote/v2/utils/zstdpool.DecoderWrapper).Reset(z, r)
+//@   pure
+//@ extern (*github.com/buchgr/bazel-remote/v2/utils/zstdpool.DecoderWrapper).IOReadCloser(z)
+//@   pure
+//@   ensures result != nil
+//@ extern (*github.com/buchgr/bazel-remote/v2/utils/zstdpool.DecoderWrapper).Close(z)
+//@   pure
+
+// The key space of a request path: cas/ is the CAS; ac/ is the validated action cache when AC
+// validation is on and the raw one when it is off (C15).
+//@ func parseRequestURL(url string, validateAC bool) (kind cache.EntryKind, hash string, instance string, err error)
+//@   serves C15 C14
+//@   ensures[C15] keyspace: err == nil ==> (kind == 1 || kind == (validateAC ? 0 : 2))
+//@   call FindStringSubmatch#0 assumes groups: arr(result) == 0 || len(result) == 4
+
+//@ func addWorkerMetadataHTTP(addr string, ct string, orig []byte) (actionResult *pb.ActionResult, code int, err error)
+//@   serves C11 C14
+//@   modifies #remoteexecution.ExecutedActionMetadata.Worker
+//@   ensures[C11] parsed: err == nil ==> (actionResult != nil && !old(allocated(actionResult)))
+//@   ensures[C14] oneof: err != nil ==> actionResult == nil
+
+//@ func (h *httpCache) handleContainsValidAC(w http.ResponseWriter, r *http.Request, hash string)
+//@   serves C06 C14
+//@   requires h != nil && h.cache != nil && h.accessLogger != nil && w != nil
+//@   requires serverrequest: r != nil && r.URL != nil
+//@   noframe
+//@   call WriteHeader#* asserts[C06] hitonly: arg1 == 200 && arr(data) != 0 && err == nil
+
+//@ func (h *httpCache) handleGetValidAC(w http.ResponseWriter, r *http.Request, hash string)
+//@   serves C06 C14
+//@   requires h != nil && h.cache != nil && h.accessLogger != nil && w != nil
+//@   requires serverrequest: r != nil && r.URL != nil
+//@   noframe
+//@   call Write#* asserts[C06] hitonly: arr(data) != 0
+
+//@ pred certOKHere() = certN == old(certN) + 1 && certChecked
+
+//@ func (h *httpCache) CacheHandler(w http.ResponseWriter, r *http.Request)
+//@   serves C01 C11 C13 C15 C18
+//@   requires h != nil && h.cache != nil && h.accessLogger != nil && h.errorLogger != nil && w != nil
+//@   requires serverrequest: r != nil && r.URL != nil && r.Body != nil
+//@   noframe
+//@   nosafety
+//@   call parseRequestURL#* asserts[C15] path: arg0 == r.URL.Path && arg1 == h.validateAC
+//@   call TransformActionCacheKey#* asserts[C15] mangle: h.mangleACKeys && (kind == 0 || kind == 2) && arg1 == instance
+//@   call Cache.Put#* asserts[C13] writeauth: !h.checkClientCertForWrites || certOKHere()
+//@   call Cache.Put#* asserts[C15] keyspace: arg2 == kind && arg3 == hash
+//@   call Cache.Put#* asserts[C18] limit: !(h.validateAC && kind == 0) ==> arg4 <= h.maxCasBlobSizeBytes
+//@   call ActionResult#* asserts[C11] validatesparsed: arg0 == ar && h.validateAC && kind == 0
+//@   call Marshal#* asserts[C11] storesvalidated: arg0 == iface(ar) && err == nil
+//@   call Cache.Get#* asserts[C13] readauth: !h.checkClientCertForReads || certOKHere()
+//@   call Cache.Get#* asserts[C15] keyspace: arg2 == kind && arg3 == hash && !(h.validateAC && kind == 0)
+//@   call Cache.GetZstd#* asserts[C13] readauth: !h.checkClientCertForReads || certOKHere()
+//@   call Cache.GetZstd#* asserts[C15] onlycas: kind == 1 && arg2 == hash
+//@   call Cache.Contains#* asserts[C13] readauth: !h.checkClientCertForReads || certOKHere()
+//@   call Cache.Contains#* asserts[C15] keyspace: arg2 == kind && arg3 == hash && !(h.validateAC && kind == 0)
+//@   call handleGetValidAC#* asserts[C13] readauth: !h.checkClientCertForReads || certOKHere()
+//@   call handleGetValidAC#* asserts[C15] validated: h.validateAC && kind == 0 && arg3 == hash
+//@   call handleContainsValidAC#* asserts[C13] readauth: !h.checkClientCertForReads || certOKHere()
+//@   call handleContainsValidAC#* asserts[C15] validated: h.validateAC && kind == 0 && arg3 == hash
